@@ -129,6 +129,7 @@ fn sampled_schedules(ctx: &mut Ctx, prop: &'static str, classes: &'static [&'sta
     for spec in specs {
         let run = exec(ctx, case, spec.clone(), true);
         account(ctx, &run);
+        ctx.sample(|| crate::props::graph::sample_json(case, &run, &spec));
         ctx.count("sampled_controlled_executions", 1);
         if nontrivial {
             ctx.distinct.insert(case.hash() ^ run.trace_hash.rotate_left(13));
@@ -211,6 +212,7 @@ fn free_stress(ctx: &mut Ctx, prop: &'static str, classes: &'static [&'static st
         let spec = if natural { Spec::Natural { delay: Some((r.gen(), 1500)) } } else { Spec::Free { delay: Some((r.gen(), 800)) } };
         let run = exec(ctx, &case, spec.clone(), true);
         account(ctx, &run);
+        ctx.sample(|| crate::props::graph::sample_json(&case, &run, &spec));
         ctx.count(if natural { "natural_flavour_executions" } else { "free_running_executions" }, 1);
         ctx.cover("thread_counts", &case.threads.to_string());
         if mask != 0 {
